@@ -5,14 +5,16 @@
    Full statement: for every series set ss a storage returns for (matchers, [mint, maxt]),
        sampled_path limit ext sort ss              = Ok (ss with the external labels), and
        chunked_path maxBytes ext mint maxt chunks  = the in-range samples of every series, once.
-   As stated it is FALSE of the faithful model (and of the code) in three corners, each with a
+   As stated it is FALSE of the faithful model (and of the code) in four corners, each with a
    `_refuted` theorem below and a reproducer in notes/C42.md:
      - streamed: a series whose chunks do not fit one frame comes back as several series
        entries with the same label set (chunkedSeriesSet.Next makes one series per frame);
      - sampled: a float sample -0.0 comes back as +0.0 (prompb.Sample omits Value when
        `m.Value != 0` is false);
      - sampled: a sample with timestamp MaxInt64 is dropped (noTS sentinel of
-       concreteSeriesIterator.Next).
+       concreteSeriesIterator.Next);
+     - sampled: concreteSeriesIterator.Seek loses the first sample of the other value type on a
+       series mixing floats and histograms (Seek moves both cursors off -1 before its no-op exit).
    Outside these corners the statement is proved at full strength (all series sets, ranges,
    frame sizes, limits, external labels). *)
 From Coq Require Import List ZArith Bool NArith.
@@ -92,6 +94,18 @@ Theorem C42_sampled_maxint64_refuted : exists ss,
   Forall (fun s => ts_sorted (ser_s s) /\ no_negzero (ser_s s)) ss /\
   sampled_path 0 [] false ss <> Ok ss.
 Proof. exact sampled_maxint64_refuted. Qed.
+
+(* refuted: Seek is not a faithful access path on a series that mixes floats and histograms
+   (Seek is otherwise covered by the correspondence run only: seek_probe vs seek_spec) *)
+Theorem C42_sampled_seek_mixed_refuted : exists all skip t,
+  ts_sorted all /\ below_noTS all /\ no_negzero all /\
+  seek_probe (floats_of all) (hists_of all) skip t <> Some (Some (seek_spec all skip t)).
+Proof. exact sampled_seek_mixed_refuted. Qed.
+
+Example C42_seek_probe_nonvacuous :
+  seek_probe (floats_of [mkS 10 KF 1; mkS 20 KH 3; mkS 30 KF 2]) (hists_of [mkS 10 KF 1; mkS 20 KH 3; mkS 30 KF 2]) 0 15
+  = Some (Some (seek_spec [mkS 10 KF 1; mkS 20 KH 3; mkS 30 KF 2] 0 15)).
+Proof. exact seek_fresh_example. Qed.
 
 (* non-vacuity: concrete non-trivial inputs meeting the hypotheses *)
 Example C42_nonvacuous_sampled :
